@@ -46,7 +46,7 @@ def build(ctx, name="h_pipe"):
             raise vlib.BuildError("compiling %s failed:\n%s" % (s, (o + e)[-3000:]))
     exe = os.path.join(ctx.bdir, name)
     cmd = ["g++"] + [f for f in fl if f.startswith("-fsanitize") or f == "-g"] + objs + \
-          ["-o", exe, "-Wl,--wrap=channel_write_unmap,--wrap=channel_abort_write,--wrap=channel_write_map,--wrap=channel_accept_writes,--wrap=channel_read_map,--wrap=channel_read_unmap,--wrap=video_sink_start", "-lm", "-ldl", "-pthread"]
+          ["-o", exe, "-Wl,--wrap=channel_write_unmap,--wrap=channel_abort_write,--wrap=channel_write_map,--wrap=channel_accept_writes,--wrap=channel_read_map,--wrap=channel_read_unmap,--wrap=video_sink_start,--wrap=video_source_start", "-lm", "-ldl", "-pthread"]
     rc, o, e = vlib.sh(cmd, timeout=600)
     if rc != 0:
         raise vlib.BuildError("link failed:\n" + (o + e)[-3000:])
@@ -1012,7 +1012,7 @@ def to_events(prog, lines):
                     seen_ref = False
                     clean = True
                     while j < len(lines) and not lines[j].startswith("A start ->"):
-                        if lines[j].startswith("H ") and "start refused" in lines[j]:
+                        if lines[j].startswith("H ") and "sink start refused state=3" in lines[j]:
                             seen_ref = True
                         if lines[j].startswith("D ") and " start " in lines[j] + " ":
                             clean = False
@@ -1044,10 +1044,6 @@ def to_events(prog, lines):
                 valid = [s for s in (0, 1) if v[s]]
                 emit("G configure %d %d %d %d" % (v[0], v[1], cfg.get(0, {}).get("n", 0), cfg.get(1, {}).get("n", 0)), i)
             elif w[1] == "start" and w[2] == "call":
-                if ev.scope is None and any(owner.get(d) in valid for d in unarmed & open_devs):
-                    # the runtime refuses such a start before it touches the device (the oracle checks that it does); the refusal
-                    # paths are not in the model
-                    ev.scope = "acquire_start with a device that failed and was not configured since (not armed)"
                 pending = [(s, r) for s in valid for r in ("sink", "filt", "src")]
                 emit("G startcall", i)
             elif w[1] == "start":
@@ -1058,8 +1054,11 @@ def to_events(prog, lines):
                 emit("G state %s" % {"AwaitingConfiguration": "await", "Armed": "armed", "Running": "running"}.get(w[3], "await"), i)
             continue
         if w[0] == "H":
-            if "start refused" in l:
-                emit("G startrefused", i)
+            if "sink start refused state=3" in l:
+                emit("G startrefused", i)                  # the storage is still running: start while running
+            elif "start refused" in l:
+                # a device that is not armed (it failed and was not configured since): refused before the device is touched
+                emit("S %d cli startrefused %s" % (int(w[1][1]), "sink" if w[2] == "sink" else "src"), i)
             continue
         if w[0] == "T":
             t = int(w[1])
@@ -1270,6 +1269,8 @@ def event_to_coq(line):
         e = {"cbstopfilter": "CbStopFilter", "cbstopsink": "CbStopSink", "cbstopsource": "CbStopSource"}[op]
     elif op in ("spawn", "exit", "joined"):
         e = "%s %s" % ({"spawn": "Spawn", "exit": "Exit", "joined": "Joined"}[op], RO[r[0]])
+    elif op == "startrefused":
+        e = "StartRefused %s" % RO[r[0]]
     elif op == "monrefused":
         e = "MonMapRefused"
     elif op == "monret":
